@@ -223,6 +223,7 @@ pub fn eval(case: &Case) -> Verdict {
         "law" => check_law(case.i[0], case.i[1], case.i[2]).map(|_| ()),
         "add_days" => check_add_days(case.i[0], i2f(case.i[1]), case.i[2] != 0).map(|_| ()),
         "ora_add_days" => super::c16::check_add_days(case.i[0] as u8, case.i[1], i2f(case.i[2])).map(|_| ()),
+        "ora_add_dt" => super::c16::check_add_dt(case.i[0], case.i[1], case.i[2] != 0),
         k => Err(format!("unknown case kind {k}")),
     };
     match r {
@@ -391,6 +392,23 @@ pub fn run(ctx: &Ctx) -> (Stats, Report) {
                 Ok(false) => st.class("law-intermediate-out-of-range"),
                 Err(m) => {
                     st.fail(k, Case::new(P, "law", vec![kind, a, b], vec![]), m);
+                    return;
+                }
+            }
+        }
+    });
+    st.merge(s);
+    // the Oracle-style date + / - day-time interval: the exact sum floored to the second
+    let orap = pools::ora_pool_small(seed, if ctx.thorough { 200 } else { 40 });
+    let dtfull = pools::dt_pool(seed, if ctx.thorough { 2000 } else { 300 });
+    let s = par_sweep((orap.len() * dtfull.len()) as u64, 4096, |range, st| {
+        for k in range {
+            let (x, i) = (orap[k as usize / dtfull.len()], dtfull[k as usize % dtfull.len()]);
+            for sub in [false, true] {
+                st.evaluations += 1;
+                st.fps.push(hash_ints(0x8c, &[x, i, sub as i128]));
+                if let Err(m) = super::c16::check_add_dt(x, i, sub) {
+                    st.fail(k, Case::new(P, "ora_add_dt", vec![x, i, sub as i128], vec![]), m);
                     return;
                 }
             }
